@@ -1,7 +1,7 @@
 (* C02 -- all finite histories over Insert / hinted Add / Remove(iterator) / Remove(key) / Extract+Insert
    (= Remove then Insert) / Clear: the container is WF, sorted and equals the list-level reference *)
 From Coq Require Import List ZArith Arith Lia Bool Sorted.
-From C02 Require Import BTreeModel BTreeParams BTreeBase BTreeSearch BTreeIter BTreeAdd BTreeTop BTreeHist BTreeRemoveTop.
+From C02 Require Import BTreeModel BTreeParams BTreeBase BTreeSearch BTreeIter BTreeAdd BTreeTop BTreeHist BTreeRemoveTop BTreeRangeTop.
 Import ListNotations.
 Local Open Scope Z_scope.
 
@@ -128,9 +128,21 @@ Proof.
   destruct (remove t (lower_bound t k)) as [t' it']. destruct Rm as (W' & C' & _). cbn [fst]. rewrite C', I. auto.
 Qed.
 
+Lemma range_sorted l h1 h2 : (h1 <= h2)%nat -> sorted l -> sorted (firstn h1 l ++ skipn h2 l).
+Proof.
+  rewrite !sorted_R. intros H S.
+  pose proof S as S0. rewrite <- (firstn_skipn h1 l) in S0. apply ss_app_inv in S0. destruct S0 as (Sa & Sb & F).
+  assert (E : skipn h2 l = skipn (h2 - h1) (skipn h1 l)).
+  { clear - H. revert l h2 H. induction h1; intros l h2 H; [rewrite Nat.sub_0_r; reflexivity|].
+    destruct h2; [lia|]. destruct l; [rewrite !skipn_nil; reflexivity|]. cbn [skipn Nat.sub]. apply IHh1. lia. }
+  apply ss_app; auto.
+  - rewrite E. apply ss_skipn. exact Sb.
+  - eapply Forall_impl; [|exact F]. intros x Hx. rewrite E. apply Forall_skipn. exact Hx.
+Qed.
+
 (* ---------- histories ---------- *)
 Inductive op := OInsert (k : Z) | OAdd (h : nat) (k : Z) | ORemove (h : nat) | ORemoveKey (k : Z)
-  | OResetKey (h : nat) (k : Z) | OClear.
+  | OResetKey (h : nat) (k : Z) | OClear | ORemoveRange (h1 h2 : nat).
 
 Definition step (t : tree) (o : op) : tree :=
   match o with
@@ -140,6 +152,7 @@ Definition step (t : tree) (o : op) : tree :=
   | ORemoveKey k => fst (remove_key linear t k)
   | OResetKey h k => if reset_ok (contents t) h k then reset_key t (nth_iter t h) k else t
   | OClear => clear t
+  | ORemoveRange h1 h2 => if (h1 <=? h2)%nat && (h2 <=? length (contents t))%nat then fst (remove_range t h1 h2) else t
   end.
 
 Definition spec_step (l : list Z) (o : op) : list Z :=
@@ -150,6 +163,7 @@ Definition spec_step (l : list Z) (o : op) : list Z :=
   | ORemoveKey k => if existsb (Z.eqb k) l then remove_at (lb_index l k) l else l
   | OResetKey h k => if reset_ok l h k then replace_at h k l else l
   | OClear => []
+  | ORemoveRange h1 h2 => if (h1 <=? h2)%nat && (h2 <=? length l)%nat then firstn h1 l ++ skipn h2 l else l
   end.
 
 Lemma existsb_In l k : existsb (Z.eqb k) l = true <-> In k l.
@@ -175,7 +189,7 @@ Proof.
     destruct (insert t k) as [[t' pos] ins]. destruct Rf as (W' & E & _). cbn [fst].
     assert (Ec : contents t' = fst (fst (spec_insert multi (contents t) k))) by (rewrite <- E; reflexivity).
     rewrite Ec. auto. }
-  destruct o as [k|h k|h|k|h k|]; cbn [step spec_step].
+  destruct o as [k|h k|h|k|h k| |h1 h2]; cbn [step spec_step].
   - destruct (Ins k) as (A & B & C). apply G; auto.
   - destruct (hint_ok (contents t) h k) eqn:Eh.
     + assert (Hh : (h <= length (contents t))%nat).
@@ -212,6 +226,11 @@ Proof.
   - apply G; auto.
     + unfold clear, empty_tree, BTreeTop.twf. simpl. reflexivity.
     + unfold clear, empty_tree, contents, BTreeHist.sorted. simpl. destruct multi; constructor.
+  - destruct ((h1 <=? h2)%nat && (h2 <=? length (contents t))%nat) eqn:Eh; [|apply G; auto].
+    apply andb_true_iff in Eh. destruct Eh as [E1 E2]. apply Nat.leb_le in E1, E2.
+    pose proof (remove_range_refines maxCap Hmc t h1 h2 W E1 E2) as Rr.
+    destruct (remove_range t h1 h2) as [t' it']. destruct Rr as (W' & C' & _). cbn [fst].
+    apply G; auto. rewrite C'. apply range_sorted; auto.
 Qed.
 
 Theorem history_refines ops :
@@ -422,6 +441,30 @@ Proof.
   destruct (merge_generic_spec (Datatypes.S (length (contents src))) src dst (begin_iter src) Ws Wd Sd N ltac:(lia)) as (A & B & C & D & F).
   cbv zeta in *. rewrite I in D, F. cbn [firstn skipn app] in D, F. repeat split; auto. rewrite D, F.
   destruct (spec_merge (contents src) (contents dst)); reflexivity.
+Qed.
+
+(* ---------- Remove(key) for multi keys: the whole equal range through Remove(iter, iter2) ---------- *)
+Theorem remove_key_multi_spec t k :
+  twf t -> sorted (contents t) ->
+  let res := remove_key_multi linear t k in
+  twf (fst res) /\
+  contents (fst res) = (if contains linear t k
+                        then firstn (lb_index (contents t) k) (contents t) ++ skipn (ub_index (contents t) k) (contents t)
+                        else contents t) /\
+  snd res = (if contains linear t k then ub_index (contents t) k - lb_index (contents t) k else 0)%nat.
+Proof.
+  intros W S. unfold remove_key_multi, BTreeModel.contains.
+  destruct (lower_bound_spec maxCap linear multi Hmc t k W S) as [N I].
+  destruct (is_greater t (lower_bound t k) k) eqn:Eg; cbn [negb fst snd]; [auto|].
+  rewrite (count_from_spec k t W) by (auto; lia). rewrite I.
+  assert (Hle : (lb_index (contents t) k <= ub_index (contents t) k)%nat).
+  { apply ft_le_impl. intros x Hx. apply Z.ltb_lt in Hx. apply negb_true_iff, Z.ltb_ge. lia. }
+  rewrite (ft_skipn (fun x => k <? x) (contents t) (lb_index (contents t) k) Hle).
+  replace (lb_index (contents t) k + (first_true (fun x => (k <? x)%Z) (contents t) - lb_index (contents t) k))%nat
+    with (ub_index (contents t) k) by (unfold ub_index in *; lia).
+  pose proof (remove_range_refines maxCap Hmc t _ _ W Hle (ub_index_le (contents t) k)) as Rr.
+  destruct (remove_range t (lb_index (contents t) k) (ub_index (contents t) k)) as [t' it']. destruct Rr as (W' & C' & _).
+  cbn [fst]. auto.
 Qed.
 
 End Hist2.
